@@ -27,7 +27,7 @@ CONSTANTS
   Flags,         \* corruption flags available to Mint ("ok" always available)
   MaxDeliveries, \* bound on Process* steps
   HeadersFirst,  \* TRUE: all headers are delivered (in id order) before any body (C03 setting)
-  TxShapes       \* "none" | "small" | "full": how rich minted bodies are
+  TxShapes       \* "none" | "small" (1-in-1-out) | "locks" (1-in-1-out, lock heights) | "full" (<=2 in, <=2 out, locks)
 
 Reward == 4      \* units (1 unit = 15 grin in the harness)
 Fee == 1
@@ -256,13 +256,14 @@ ProcBlock(nd, b) ==
 (* Minting: any syntactically well-formed block on any existing parent *)
 
 AllCommits == (Ids \cup Pool)           \* every commitment that may ever be named by an input
+Subsets12(S, two) == {{a} : a \in S} \cup (IF two THEN {{a, b} : a \in S, b \in S} ELSE {})
 TxChoices(h) ==
   IF TxShapes = "none" THEN {NoTx}
   ELSE {NoTx} \cup
        {[ins |-> I, outs |-> O, lock |-> lk] :
-          I \in {S \in SUBSET AllCommits : Cardinality(S) \in (IF TxShapes = "full" THEN {1, 2} ELSE {1})},
-          O \in {S \in SUBSET Pool : Cardinality(S) \in (IF TxShapes = "full" THEN {1, 2} ELSE {1})},
-          lk \in (IF TxShapes = "full" THEN {0, h, h + 1} ELSE {0})}
+          I \in Subsets12(AllCommits, TxShapes = "full"),
+          O \in Subsets12(Pool, TxShapes = "full"),
+          lk \in (IF TxShapes \in {"full", "locks"} THEN {0, h, h + 1} ELSE {0})}
 
 Mint(p, d, t, f) ==
   LET id == Cardinality(Ids) IN
@@ -271,7 +272,7 @@ Mint(p, d, t, f) ==
   /\ t.ins \cap t.outs = {}
   /\ id \notin t.ins                     \* cannot spend its own coinbase
   /\ HasTx(t) => SumVal(t.ins) = SumVal(t.outs) + Fee      \* only value-balanced bodies are minted (badSums is a flag)
-  /\ (f = "badSums" => ~HasTx(t))
+  /\ (f # "ok" => ~HasTx(t))             \* corrupted blocks carry no transaction (keeps the product of choices small)
   /\ tree' = [x \in Ids \cup {id} |-> IF x = id THEN [parent |-> p, height |-> Height(p) + 1, diff |-> d, tx |-> t, flag |-> f]
                                                 ELSE tree[x]]
   /\ last' = [k |-> "Mint", b |-> id, res |-> "-"]
